@@ -219,7 +219,39 @@ func (e Engine) Run(t *simrt.Tape, c simrt.Case, x *simrt.Ctx) *simrt.Result {
 	res := simrt.NewResult()
 	var text, class string
 	fixture := len(c.Args) > 0 && c.Args[0] >= 0
-	switch k := t.Draw(10); {
+	switch k := t.Draw(11); {
+	case k == 10 && !fixture:
+		// MANY diagnostics of one kind: more than any small round limit a reporter might apply
+		// (first ten, first sixteen, ...) - a cut taken before the order is fixed shows as a changing set
+		class = "many_diagnostics"
+		n := []int{11, 12, 14, 17, 21, 33, 65, 130}[t.Draw(8)]
+		var b strings.Builder
+		b.WriteString("grammar many;\n")
+		switch t.Draw(4) {
+		case 0: // undefined rule names
+			b.WriteString("start =")
+			for i := 0; i < n; i++ {
+				fmt.Fprintf(&b, " u%c%d", 'a'+byte((i*7)%26), i)
+			}
+			b.WriteString(";\n")
+		case 1: // undefined tokens
+			b.WriteString("start =")
+			for i := 0; i < n; i++ {
+				fmt.Fprintf(&b, " T%c%d", 'A'+byte((i*11)%26), i)
+			}
+			b.WriteString(";\n")
+		case 2: // tokens defined twice
+			for i := 0; i < n; i++ {
+				fmt.Fprintf(&b, "K%c%d = \"v%d\";\nK%c%d = \"w%d\";\n", 'A'+byte((i*5)%26), i, i, 'A'+byte((i*5)%26), i, i)
+			}
+			b.WriteString("start = \"x\";\n")
+		default: // pairs of tokens with the same value
+			for i := 0; i < n; i++ {
+				fmt.Fprintf(&b, "P%c%d = \"same%d\";\nQ%c%d = \"same%d\";\n", 'A'+byte((i*3)%26), i, i, 'A'+byte((i*17)%26), i, i)
+			}
+			b.WriteString("start = \"x\";\n")
+		}
+		text = b.String()
 	case fixture:
 		b, err := os.ReadFile(filepath.Join(e.FixtureDir, fixtures[c.Args[0]]))
 		if err != nil {
